@@ -108,7 +108,7 @@ example : (match analyze Toy.game Toy.cfg Oracle.quiet 5 (Eng.new Toy.game Toy.c
 — with an evaluation that is decisive only for finished games (`EvalOK`, C18) this is "the mover has a forced win /
 is lost against best play".  `HashInj g` is the `NoCollision` hypothesis (distinct positions, distinct 64-bit
 hashes); `TableSound g s`: every entry of the table of `s` is a true bound, in the three-valued sense, for every
-position that would find it. -/
+position that would find it.  `TableGood g s` adds the depth clause used by `verdict_complete`. -/
 
 /-- **`verdict_sound`**: run any history of `Analyze` calls on one engine — any positions (related, repeated,
 unrelated), any table size from one entry up (or none), every call with its own move order and its own cancellation
@@ -165,6 +165,10 @@ theorem analyze_complete {g : Game P M} (hg : GameOK g) (he : EvalOK g) (hinj : 
       (x.1.2.1 ≤ Facts.winThreshold → negamax g x.1.2.2.depth.toNat p ≤ Facts.winThreshold) ∧
       (-Facts.winThreshold ≤ x.1.2.1 → -Facts.winThreshold ≤ negamax g x.1.2.2.depth.toNat p)) :=
   analyze_covers hg he hinj hpr hnc hord p hov s hts
+
+/-- the invariant is satisfiable: a new engine's table is good (`verdict_complete` starts from it) -/
+example : TableGood Toy.game (Eng.new Toy.game { Toy.cfg with tableEntries := some 2 }) :=
+  tableGood_new Toy.evalOK _
 
 /-- a cancelled (or any other) `Analyze` keeps the table good -/
 theorem analyze_keeps_table {g : Game P M} (hg : GameOK g) (he : EvalOK g) (hinj : HashInj g)
